@@ -5,6 +5,7 @@
 
 use rayon::prelude::*;
 use rlib_rand::randomable::Randomable;
+use rlib_rand::{Rand, Rng};
 use std::collections::BTreeSet;
 use vcore::*;
 
@@ -49,6 +50,8 @@ pub trait IntTy: Copy + Send + Sync + 'static {
     const SIGNED: bool;
     /// The REAL code: build the range of this type and call `gen_from_u64(raw)`.  May panic.
     fn gen(form: Form, a: i128, b: i128, raw: u64) -> i128;
+    /// The REAL code: one draw `rng.next(range)` through the generator.  May panic.
+    fn draw(rng: &mut Rng, form: Form, a: i128, b: i128) -> i128;
 
     fn min() -> i128 {
         if Self::SIGNED {
@@ -81,6 +84,18 @@ macro_rules! int_ty {
                     Form::To => (..b).gen_from_u64(raw),
                     Form::ToIncl => (..=b).gen_from_u64(raw),
                     Form::Full => (..).gen_from_u64(raw),
+                };
+                r as i128
+            }
+            #[inline]
+            fn draw(rng: &mut Rng, form: Form, a: i128, b: i128) -> i128 {
+                let (a, b) = (a as $t, b as $t);
+                let r: $t = match form {
+                    Form::Range => rng.next(a..b),
+                    Form::Incl => rng.next(a..=b),
+                    Form::To => rng.next(..b),
+                    Form::ToIncl => rng.next(..=b),
+                    Form::Full => rng.next(..),
                 };
                 r as i128
             }
